@@ -218,7 +218,8 @@ def oracle(pr, sc, res, obs):
     if res["exit"] != 0 and obs["written"] and "rewrite" in tr:
         # a failure AFTER the rewrite (hook, commit, tag, push): files are written, that is the documented order; nothing to judge here
         pass
-    if res["exit"] == 0 and not sc["dry"] and not obs["written"]:
+    if res["exit"] == 0 and not sc["dry"] and not obs["written"] and sc["set_version"] != pr["old"]:
+        # (--set-version equal to what the files already show, accepted because the update starts from an older tag, rewrites the same content)
         return "exit 0 without --dry but no file changed"
     return None
 
